@@ -26,16 +26,17 @@ type Profile struct {
 	MemoSplice                                                                         int  // percent of grammars with a re-enter-after-overwrite choice (memo splice)
 	RefHeavy                                                                           bool // rule bodies are sequences of references and captures
 	Dispatch                                                                           int  // percent of choices built as first-character dispatch (what -switch rewrites)
+	ExtremeSplice                                                                      int  // percent of grammars with a rule that can never succeed or never fail, called where that decides the parse
 }
 
 var Profiles = map[string]Profile{
-	"plain":      {Name: "plain", WUntil: 3, ListSplice: 20, MinRules: 2, MaxRules: 6, Depth: 3, AltMin: 2, AltMax: 4, SeqMax: 4, WTerm: 22, WSeq: 20, WAlt: 18, WOpt: 6, WStar: 6, WPlus: 6, WAnd: 4, WNot: 4, WCap: 6, WRef: 8, WAct: 6, WPred: 2, WState: 1, Hostile: 8, Newline: 2},
-	"switchy":    {Name: "switchy", Dispatch: 60, RecSplice: 40, MinRules: 2, MaxRules: 6, Depth: 3, AltMin: 3, AltMax: 6, SeqMax: 3, WTerm: 22, WSeq: 16, WAlt: 30, WOpt: 6, WStar: 5, WPlus: 4, WAnd: 5, WNot: 5, WCap: 4, WRef: 10, WAct: 4, WPred: 1, WState: 0, Hostile: 6, Newline: 1},
-	"backtracky": {Name: "backtracky", WUntil: 8, ListSplice: 20, MemoSplice: 50, CaptureOnly: 35, MinRules: 2, MaxRules: 5, Depth: 3, AltMin: 2, AltMax: 4, SeqMax: 4, WTerm: 18, WSeq: 22, WAlt: 22, WOpt: 5, WStar: 5, WPlus: 4, WAnd: 6, WNot: 4, WCap: 10, WRef: 12, WAct: 10, WPred: 1, WState: 0, Hostile: 3, Newline: 1, SharedPrefix: 60},
-	"deep":       {Name: "deep", WUntil: 4, CaptureOnly: 10, MinRules: 3, MaxRules: 7, Depth: 4, AltMin: 2, AltMax: 3, SeqMax: 3, WTerm: 14, WSeq: 22, WAlt: 12, WOpt: 6, WStar: 6, WPlus: 6, WAnd: 2, WNot: 2, WCap: 14, WRef: 18, WAct: 8, WPred: 1, WState: 0, Hostile: 10, Newline: 2},
-	"erry":       {Name: "erry", WUntil: 4, RefHeavy: true, MinRules: 4, MaxRules: 7, Depth: 3, AltMin: 2, AltMax: 3, SeqMax: 5, WTerm: 14, WSeq: 30, WAlt: 10, WOpt: 6, WStar: 5, WPlus: 6, WAnd: 2, WNot: 2, WCap: 14, WRef: 30, WAct: 2, WPred: 1, WState: 0, Hostile: 15, Newline: 20},
-	"actiony":    {Name: "actiony", WUntil: 8, ListSplice: 40, CaptureOnly: 10, MinRules: 2, MaxRules: 5, Depth: 3, AltMin: 2, AltMax: 3, SeqMax: 5, WTerm: 14, WSeq: 26, WAlt: 14, WOpt: 8, WStar: 8, WPlus: 8, WAnd: 5, WNot: 3, WCap: 16, WRef: 12, WAct: 24, WPred: 1, WState: 0, Hostile: 4, Newline: 2, SharedPrefix: 40},
-	"liney":      {Name: "liney", WUntil: 6, MinRules: 2, MaxRules: 5, Depth: 3, AltMin: 2, AltMax: 4, SeqMax: 5, WTerm: 26, WSeq: 24, WAlt: 14, WOpt: 6, WStar: 6, WPlus: 6, WAnd: 3, WNot: 3, WCap: 6, WRef: 8, WAct: 3, WPred: 1, WState: 0, Hostile: 25, Newline: 25},
+	"plain":      {Name: "plain", ExtremeSplice: 15, WUntil: 3, ListSplice: 20, MinRules: 2, MaxRules: 6, Depth: 3, AltMin: 2, AltMax: 4, SeqMax: 4, WTerm: 22, WSeq: 20, WAlt: 18, WOpt: 6, WStar: 6, WPlus: 6, WAnd: 4, WNot: 4, WCap: 6, WRef: 8, WAct: 6, WPred: 2, WState: 1, Hostile: 8, Newline: 2},
+	"switchy":    {Name: "switchy", ExtremeSplice: 12, Dispatch: 60, RecSplice: 40, MinRules: 2, MaxRules: 6, Depth: 3, AltMin: 3, AltMax: 6, SeqMax: 3, WTerm: 22, WSeq: 16, WAlt: 30, WOpt: 6, WStar: 5, WPlus: 4, WAnd: 5, WNot: 5, WCap: 4, WRef: 10, WAct: 4, WPred: 1, WState: 0, Hostile: 6, Newline: 1},
+	"backtracky": {Name: "backtracky", ExtremeSplice: 10, WUntil: 8, ListSplice: 20, MemoSplice: 50, CaptureOnly: 35, MinRules: 2, MaxRules: 5, Depth: 3, AltMin: 2, AltMax: 4, SeqMax: 4, WTerm: 18, WSeq: 22, WAlt: 22, WOpt: 5, WStar: 5, WPlus: 4, WAnd: 6, WNot: 4, WCap: 10, WRef: 12, WAct: 10, WPred: 1, WState: 0, Hostile: 3, Newline: 1, SharedPrefix: 60},
+	"deep":       {Name: "deep", ExtremeSplice: 10, WUntil: 4, CaptureOnly: 10, MinRules: 3, MaxRules: 7, Depth: 4, AltMin: 2, AltMax: 3, SeqMax: 3, WTerm: 14, WSeq: 22, WAlt: 12, WOpt: 6, WStar: 6, WPlus: 6, WAnd: 2, WNot: 2, WCap: 14, WRef: 18, WAct: 8, WPred: 1, WState: 0, Hostile: 10, Newline: 2},
+	"erry":       {Name: "erry", ExtremeSplice: 8, WUntil: 4, RefHeavy: true, MinRules: 4, MaxRules: 7, Depth: 3, AltMin: 2, AltMax: 3, SeqMax: 5, WTerm: 14, WSeq: 30, WAlt: 10, WOpt: 6, WStar: 5, WPlus: 6, WAnd: 2, WNot: 2, WCap: 14, WRef: 30, WAct: 2, WPred: 1, WState: 0, Hostile: 15, Newline: 20},
+	"actiony":    {Name: "actiony", ExtremeSplice: 12, WUntil: 8, ListSplice: 40, CaptureOnly: 10, MinRules: 2, MaxRules: 5, Depth: 3, AltMin: 2, AltMax: 3, SeqMax: 5, WTerm: 14, WSeq: 26, WAlt: 14, WOpt: 8, WStar: 8, WPlus: 8, WAnd: 5, WNot: 3, WCap: 16, WRef: 12, WAct: 24, WPred: 1, WState: 0, Hostile: 4, Newline: 2, SharedPrefix: 40},
+	"liney":      {Name: "liney", ExtremeSplice: 10, WUntil: 6, MinRules: 2, MaxRules: 5, Depth: 3, AltMin: 2, AltMax: 4, SeqMax: 5, WTerm: 26, WSeq: 24, WAlt: 14, WOpt: 6, WStar: 6, WPlus: 6, WAnd: 3, WNot: 3, WCap: 6, WRef: 8, WAct: 3, WPred: 1, WState: 0, Hostile: 25, Newline: 25},
 }
 
 // ProfileMix is the fixed mix of a lab batch (cycled through by grammar index).
@@ -707,6 +708,99 @@ func (s *genState) recSplice(g *Grammar) {
 	s.rules = g.Rules
 }
 
+// extremeSplice adds a rule X that can never succeed or can never fail - the classes a
+// generator reasons about when it drops failure branches ("always succeeds") - reached
+// through zero to two wrappers, and calls it in front of the first rule's old body where
+// its outcome decides the parse:  R0 <- X t1 / !X t2 / &X t3 / <X> t4 / (old body).
+func (s *genState) extremeSplice(g *Grammar) {
+	t := s.t
+	lit := func(r rune) *Expr { return &Expr{K: KLit, Runes: []rune{r}} }
+	c := rapid.SampledFrom(baseAlpha).Draw(t, "xc")
+	never := rapid.Bool().Draw(t, "xnever")
+	// an expression that cannot fail
+	always := func(label string) *Expr {
+		switch rapid.IntRange(0, 7).Draw(t, label) {
+		case 0:
+			return Un(KStar, lit(c))
+		case 1:
+			return Un(KOpt, lit(c))
+		case 2:
+			return &Expr{K: KEmpty}
+		case 3:
+			return &Expr{K: KAct}
+		case 4:
+			return Un(KAnd, &Expr{K: KEmpty})
+		case 5:
+			return Un(KCap, Un(KStar, lit(c)))
+		case 6:
+			return &Expr{K: KAlt, Kids: []*Expr{lit(c)}, EmptyLast: true}
+		default:
+			return Seq(Un(KOpt, lit(c)), &Expr{K: KAct})
+		}
+	}
+	base := len(g.Rules)
+	var body *Expr
+	var extra []*Rule
+	if never {
+		switch rapid.IntRange(0, 5).Draw(t, "xn") {
+		case 0:
+			body = Un(KNot, &Expr{K: KEmpty})
+		case 1:
+			body = &Expr{K: KClass}
+		case 2:
+			body = Un(KNot, always("xna"))
+		case 3:
+			// through a second rule that cannot fail
+			extra = append(extra, &Rule{Name: fmt.Sprintf("R%d", base+1), Body: always("xnr")})
+			body = Un(KNot, Ref(base+1))
+		case 4:
+			body = Un(KAnd, Un(KNot, always("xnb")))
+		default:
+			body = Seq(always("xnc"), Un(KNot, &Expr{K: KEmpty}))
+		}
+	} else {
+		body = always("xa")
+		if rapid.Bool().Draw(t, "xar") {
+			extra = append(extra, &Rule{Name: fmt.Sprintf("R%d", base+1), Body: body})
+			body = Ref(base + 1)
+		}
+	}
+	switch rapid.IntRange(0, 4).Draw(t, "xw") {
+	case 0:
+		body = Un(KCap, body)
+	case 1:
+		body = Un(KAnd, body)
+	case 2:
+		body = Seq(&Expr{K: KAct}, body)
+	}
+	g.Rules = append(g.Rules, &Rule{Name: fmt.Sprintf("R%d", base), Body: body})
+	g.Rules = append(g.Rules, extra...)
+	x := func() *Expr { return Ref(base) }
+	tails := rapid.Permutation([]rune{'a', 'b', 'c', 'd', '1', '2'}).Draw(t, "xtails")
+	calls := []*Expr{
+		Seq(x(), lit(tails[0])),
+		Seq(Un(KNot, x()), lit(tails[1])),
+		Seq(Un(KAnd, x()), lit(tails[2])),
+		Seq(Un(KCap, x()), lit(tails[3])),
+		Seq(Un(KOpt, x()), lit(tails[4])),
+		Seq(lit(tails[5]), x(), lit(tails[0])),
+	}
+	n := rapid.IntRange(1, 3).Draw(t, "xncalls")
+	order := rapid.Permutation([]int{0, 1, 2, 3, 4, 5}).Draw(t, "xorder")
+	alt := &Expr{K: KAlt}
+	for _, k := range order[:n] {
+		alt.Kids = append(alt.Kids, calls[k])
+	}
+	alt.Kids = append(alt.Kids, g.Rules[0].Body)
+	g.Rules[0].Body = alt
+	for range g.Rules[s.n:] {
+		s.ruleMust = append(s.ruleMust, false)
+		s.known = append(s.known, true)
+	}
+	s.n = len(g.Rules)
+	s.rules = g.Rules
+}
+
 // WellFormedGrammar draws a well-formed grammar of the profile. Every rule is reachable
 // from the first one.
 func WellFormedGrammar(t *rapid.T, p Profile) *Grammar {
@@ -746,6 +840,9 @@ func WellFormedGrammar(t *rapid.T, p Profile) *Grammar {
 	}
 	if s.pct(p.ListSplice, "listsplice") {
 		s.listSplice(g)
+	}
+	if s.pct(p.ExtremeSplice, "extremesplice") {
+		s.extremeSplice(g)
 	}
 	// reachability: append references to unreachable rules to the first rule
 	reach := g.Reachable()
@@ -787,6 +884,12 @@ var sampleAlpha = append(append([]rune{}, baseAlpha...), 'é', '世', '😀', '\
 
 // Sample walks the grammar from rule entry emitting runes of one (almost) matching string.
 func Sample(g *Grammar, entry int, c Chooser, maxLen int) []rune {
+	return SamplePumped(g, entry, c, maxLen, 4)
+}
+
+// SamplePumped is Sample with repetitions iterated up to loopMax-1 times: long inputs that
+// still (almost) match, for whatever depends on offsets and token counts growing.
+func SamplePumped(g *Grammar, entry int, c Chooser, maxLen, loopMax int) []rune {
 	var out []rune
 	var ev func(e *Expr, d int)
 	ev = func(e *Expr, d int) {
@@ -806,7 +909,9 @@ func Sample(g *Grammar, entry int, c Chooser, maxLen int) []rune {
 				out = append(out, r)
 			}
 		case KClass:
-			if !e.Neg {
+			if len(e.Items) == 0 {
+				// the empty class matches nothing
+			} else if !e.Neg {
 				it := e.Items[c.Intn(len(e.Items))]
 				out = append(out, it.Lo+rune(c.Intn(int(it.Hi-it.Lo)+1)))
 			} else {
@@ -856,7 +961,7 @@ func Sample(g *Grammar, entry int, c Chooser, maxLen int) []rune {
 				ev(e.Kids[0], d)
 			}
 		case KStar, KPlus:
-			n := c.Intn(4)
+			n := c.Intn(loopMax)
 			if e.K == KPlus && n == 0 {
 				n = 1
 			}
